@@ -34,6 +34,13 @@ package keeper
 //@   ensures value: found ==> record == get(records, recordID)
 //@ end
 
+// The query: the id string returned at creation reads back that record (C19); the id is decoded as it stands.
+//@ func Keeper.Record(c, req)
+//@   property C19
+//@   returns resp, err
+//@   ensures reads_back: ufb("hex_ok", req.RecordId) && has(records, unhex(req.RecordId)) ==> err == nil && !resp.Record.isnil && resp.Record.val == get(records, unhex(req.RecordId))
+//@ end
+
 //@ func msgServer.CreateRecord(goCtx, msg)
 //@   property C19
 //@   returns resp, err
